@@ -43,11 +43,33 @@ def run_hook_closure(ctx, cpath, extra=None, oracle=None, mem_fail_paths=False):
     tmp = ("L", ("hook-env", cpath), 0)
     p = A.Path()
     p.store[tmp] = env
-    outs = list(I.run(b, [("ref", (tmp, ()), False), P.self_ref(True), ("mnem",)], p))
+    if b["kind"] == "Closure":
+        outs = list(I.run(b, [("ref", (tmp, ()), False), P.self_ref(True), ("mnem",)], p))
+    else:
+        outs = list(I.run(b, [P.self_ref(True), ("mnem",)], p))  # a named function registered as the hook
     return outs, I, b
 
 
 _HOOKS_BY_NUM = {}
+
+
+def native_hook_bodies(facts):
+    """the built-in native hooks of the syscall helper module: top-level closures with the hook signature, and named
+    functions with the signature (&mut Axecutor, SupportedMnemonic) -> Result<HookResult, _> (a closure given a name)"""
+    out = []
+    for k, b in sorted(facts.bodies.items()):
+        if b["glue"] or not k.startswith("helpers::syscalls::"):
+            continue
+        if b["kind"] == "Closure":
+            if k.count("{closure#") == 1 and b["argc"] == 3:
+                out.append(k)
+        else:
+            l1 = b["locals"][1] if b["argc"] == 2 else None
+            rt = b["locals"][0]
+            if b["kind"] in ("Fn", "AssocFn") and isinstance(l1, list) and l1[0] == "ref" and l1[1] and l1[2] == ["adt", "axecutor::Axecutor", []] \
+                    and isinstance(rt, list) and rt[:2] == ["adt", "std::result::Result"] and "HookResult" in str(rt):
+                out.append(k)
+    return out
 
 
 def hook_closures_by_syscall(ctx):
@@ -60,10 +82,18 @@ def hook_closures_by_syscall(ctx):
     facts = ctx.facts
     out = {}
     for k, b in sorted(facts.bodies.items()):
-        if b["glue"] or b["kind"] != "Closure" or not k.startswith("helpers::syscalls::") or k.count("{closure#") != 1:
+        if b["glue"] or not k.startswith("helpers::syscalls::"):
             continue
-        if b["argc"] != 3:
-            continue
+        if b["kind"] == "Closure":
+            if k.count("{closure#") != 1 or b["argc"] != 3:
+                continue
+        else:
+            # a named function with the native-hook signature (&mut Axecutor, SupportedMnemonic) -> Result<HookResult, _>
+            l1 = b["locals"][1] if b["argc"] == 2 else None
+            rt = b["locals"][0]
+            if not (b["kind"] in ("Fn", "AssocFn") and isinstance(l1, list) and l1[0] == "ref" and l1[1] and l1[2] == ["adt", "axecutor::Axecutor", []]
+                    and isinstance(rt, list) and rt[:2] == ["adt", "std::result::Result"] and "HookResult" in str(rt)):
+                continue
         try:
             outs, I, _ = run_hook_closure(ctx, k, None)
         except Exception:  # noqa
